@@ -143,6 +143,50 @@ def _find_dependencies(ir):
     return dependencies, errors
 
 
+def _with_dependencies_of_anonymous_bits_members(structure, dependencies):
+    """Returns dependencies, plus those between aliases of anonymous bits members.
+
+    The members of an anonymous `bits` are reached through alias fields in the
+    enclosing structure (`let x = emboss_reserved_anonymous_field_1.x`).  The
+    reference in an alias only shows a dependency on the anonymous field; what
+    the member itself depends on -- `if flag:  1 [+3]  UInt  x` -- is recorded
+    for the member inside the anonymous type.  Those dependencies are carried
+    over to the aliases, so that `flag` is ordered (read, written as text)
+    before `x`.
+    """
+    local_fields = {
+        ir_util.hashable_form_of_reference(field.name): field
+        for field in structure.field
+    }
+    result = dependencies
+    for name, field in local_fields.items():
+        if (
+            not field.has_field("read_transform")
+            or field.read_transform.which_expression != "field_reference"
+        ):
+            continue
+        path = field.read_transform.field_reference.path
+        if len(path) != 2:
+            continue
+        head = local_fields.get(ir_util.hashable_form_of_reference(path[0]))
+        if head is None or not head.name.is_anonymous:
+            continue
+        member = ir_util.hashable_form_of_reference(
+            head.type.atomic_type.reference
+        ) + (path[1].source_name[-1].text,)
+        for dependency in sorted(dependencies.get(member, ())):
+            sibling = name[:-1] + (dependency[-1],)
+            if (
+                dependency[:-1] == member[:-1]
+                and sibling in local_fields
+                and sibling != name
+            ):
+                if result is dependencies:
+                    result = dict(dependencies)
+                result[name] = result[name] | {sibling}
+    return result
+
+
 def _find_dependency_ordering_for_fields_in_structure(
     structure, type_definition, dependencies
 ):
@@ -153,6 +197,7 @@ def _find_dependency_ordering_for_fields_in_structure(
     # This is one of many possible schemes for constructing a dependency ordering;
     # it has the advantage that all of the generated fields (e.g., $size_in_bytes)
     # stay at the end of the ordering, which makes testing easier.
+    dependencies = _with_dependencies_of_anonymous_bits_members(structure, dependencies)
     order = []
     added = set()
     for parameter in type_definition.runtime_parameter:
